@@ -57,11 +57,14 @@ def do_op(op, files):
     kind, cls, fi = op
     path = files[fi]
     try:
-        if kind == "read":
+        if kind in ("read", "readtext"):
             C = {"AmplitudeChain": ac.AmplitudeChain, "GooFitChain": gf.GooFitChain, "GooFitPyChain": gf.GooFitPyChain}[cls]
-            r = C.read_ampgen(str(path))
+            # by file name, or the same content handed over as text
+            r = C.read_ampgen(str(path)) if kind == "read" else C.read_ampgen(text=Path(path).read_text())
             lines = r[0]
-            return ["read", [str(l) for l in lines], [[round(l.amp.real, 12), round(l.amp.imag, 12), bool(l.fix)] for l in lines]]
+            # the amplitudes, and what is known about every particle seen (the particle table is process-wide)
+            return ["read", [str(l) for l in lines], [[round(l.amp.real, 12), round(l.amp.imag, 12), bool(l.fix)] for l in lines],
+                    sorted([int(p.pdgid), p.mass, p.width] for p in C.all_particles)]
         if kind == "cpp":
             return ["cpp", canon_text(ampgen2goofit(str(path), ret_output=True))]
         return ["py", canon_text(ampgen2goofitpy(str(path), ret_output=True))]
@@ -140,6 +143,8 @@ def parse_opt(text):
             out.append(["fcs", t[1]])
         elif len(t) == 7:
             out.append(["cplx", tree(t[0]), t[1:4], t[4:7]])
+        elif len(t) == 4 and "{" in t[0]:
+            continue                                 # a single-component decay line: parsed by the grammar, not converted
         elif len(t) == 4:
             out.append(["var", t[0], t[1], t[2], t[3]])
         elif len(t) == 2:
@@ -223,8 +228,13 @@ def main():
         f = d / f"pool_{i}.txt"
         f.write_text(t)
         files.append(str(f))
+    # file 6: file 0 cut down to its top-level lines — the bare resonances it names are dead ends there (and described in file 0)
+    pool_txt.append("\n".join(ev + [l for l in bodies[0] if l.startswith("D0")] + rest) + "\n")
+    f = d / "pool_6.txt"
+    f.write_text(pool_txt[-1])
+    files.append(str(f))
     pool = [parse_opt(t) for t in pool_txt]
-    allops = [["read", c, i] for c in CLASSES for i in range(len(pool))] + [["cpp", None, i] for i in range(len(pool))] + [["py", None, i] for i in range(len(pool))]
+    allops = [["read", c, i] for c in CLASSES for i in range(len(pool))] + [["readtext", c, i] for c in CLASSES for i in range(len(pool))] + [["cpp", None, i] for i in range(len(pool))] + [["py", None, i] for i in range(len(pool))]
     hists = []
     if args.replay:
         hists = json.loads(Path(args.replay).read_text())["cases"]
@@ -235,6 +245,10 @@ def main():
         nr = 8 if args.tier == "quick" else 150
         for _ in range(nr):
             hists.append({"ops": [rng.choice(allops) for _ in range(rng.randint(3, 8))], "files": files})
+        # the cut-down file before the full one, and a text read as the first call of a process
+        for c1, c2 in ([("GooFitPyChain", "AmplitudeChain"), ("AmplitudeChain", "GooFitChain")] if args.tier == "quick" else [(a, b) for a in CLASSES for b in CLASSES]):
+            hists.append({"ops": [["readtext", c1, 6], ["readtext", c2, 0], ["cpp", None, 0]], "files": files})
+            hists.append({"ops": [["readtext", c1, 0], ["read", c2, 6], ["read", c1, 0]], "files": files})
     with cf.ThreadPoolExecutor(max_workers=16) as ex:
         runs = list(ex.map(run_fresh, hists))
     # single-op ground truth in fresh interpreters (cached per op)
@@ -259,7 +273,7 @@ Definition pid_of (n : string) : option Z := pd_get n amp_names.
     terms, flat_states = [], []
     coq_files = "[" + "; ".join(ampgen_gen.coq_optfile(o) for o in pool) + "]"
     for h, run in zip(hists, runs):
-        ops = "[" + "; ".join({"read": "ORead", "cpp": "OCpp", "py": "OPy"}[op[0]] + " " + ({"AmplitudeChain": "CBase", "GooFitChain": "CCpp", "GooFitPyChain": "CPy", None: ""}[op[1]]) + f" {op[2]}%nat" for op in h["ops"]) + "]"
+        ops = "[" + "; ".join({"read": "ORead", "readtext": "ORead", "cpp": "OCpp", "py": "OPy"}[op[0]] + " " + ({"AmplitudeChain": "CBase", "GooFitChain": "CCpp", "GooFitPyChain": "CPy", None: ""}[op[1]]) + f" {op[2]}%nat" for op in h["ops"]) + "]"
         terms.append(f"vhistory pid_of 40 {coq_files} {ops}")
         flat_states.append([st for _, st in run])
     model = vlib.run_model("C20", ["Lib.PyDict", "Gen.GenAmp", "Amp.Syntax", "Amp.Read", "Amp.Session"], "fun v : val => v", terms, shard=20, preamble=pre)
@@ -277,8 +291,8 @@ Definition pid_of (n : string) : option Z := pd_get n amp_names.
         if [x[0] for x in a] != [x[0] for x in sr[0][0]]:
             hits.append((probe, f"output differs between hash seeds 0 and {s} beyond the order of independent declarations"))
     ck.cov["distinct_nontrivial"] = len({json.dumps(h["ops"]) for h in hists if len(h["ops"]) > 1})
-    ck.cov["rule"] = ("pool of 6 generated option files (two with the coherent-sum option, two whose event type lists the final state in another order, one of them with the lines of file 0); histories: random pairs and random sequences of "
-                      "3..8 calls over {read by each of the 3 classes, convert to C++, convert to Python} x pool; each call compared with "
+    ck.cov["rule"] = ("pool of 7 option files (two with the coherent-sum option, two whose event type lists the final state in another order, one of them with the lines of file 0, one = file 0 cut down to its top-level lines so that its resonances are dead ends); histories: random pairs and random sequences of "
+                      "3..8 calls over {read by each of the 3 classes by file name or as text, convert to C++, convert to Python} x pool, plus cut-down-then-full and text-first histories; particle data (mass, width) of every particle seen observed with each read; each call compared with "
                       "the same call alone in a fresh interpreter; class-level state after each call compared with the model; hash seeds")
     ck.cov["samples"] = [hists[0]["ops"], hists[-1]["ops"]]
     ck.notes["distribution"] = {"histories": len(hists), "calls": n_ops, "fresh_interpreter_single_calls": len(need), "hash_seeds": seeds}
